@@ -326,7 +326,11 @@ def _c11(ctx):
     d1.floor('member dependences read from the constructors', nd, 60)
     x5, n5 = exc.rule_X5(ctx, set(C11_CLASSES))
     x5.floor('validating constructors and setters', n5, 9)
-    return [s2, d1, x5] + _exc_rules(ctx, 'C11', with_lookup=False)
+    from .rules import homog
+    h1, nset, nmem = homog.rule_H1(ctx, C11_CLASSES)
+    h1.floor('SetScale functions', nset, 3)
+    h1.floor('scale-carrying members', nmem, 6)
+    return [s2, d1, h1, x5] + _exc_rules(ctx, 'C11', with_lookup=False)
 
 
 C19_CLASSES = {NSP + c for c in ('SphericalEngine', 'CircularEngine', 'SphericalHarmonic', 'SphericalHarmonic1',
